@@ -221,16 +221,11 @@ func checkWasmCallClassification(p *core.Prog, r *core.Report, rule string) {
 		})
 	}
 	via := func(edges []core.Edge, c *ssa.Call) bool {
-		var own []core.Edge
-		for _, e := range edges {
-			if e.From.Parent() == c.Parent() {
-				own = append(own, e)
-			}
-		}
-		if len(own) == 0 {
+		if len(edges) == 0 {
 			return false
 		}
-		q := core.PathQuery{Fn: c.Parent(), CutEdge: func(e core.Edge) bool { return containsEdge(own, e) }}
+		// from wasmCall's entry (the query follows the call into the helper that builds the error)
+		q := core.PathQuery{Fn: fn, CutEdge: func(e core.Edge) bool { return containsEdge(edges, e) }}
 		_, reach := q.CanReach(nil, func(x ssa.Instruction) bool { return x == ssa.Instruction(c) })
 		return !reach
 	}
